@@ -4,6 +4,15 @@ pub open spec fn dsum_to(s: Seq<(R, R)>, k: int) -> real decreases k { if k <= 0
 pub open spec fn dsumsq_to(s: Seq<(R, R)>, k: int) -> real decreases k {
     if k <= 0 { 0real } else { dsumsq_to(s, k - 1) + rmul(s[k - 1].0.v() - s[k - 1].1.v(), s[k - 1].0.v() - s[k - 1].1.v()) }
 }
+// sums of the differences of two sequences fed in parallel (Paired::extend)
+pub open spec fn psum_to(a: Seq<R>, b: Seq<R>, k: int) -> real decreases k { if k <= 0 { 0real } else { psum_to(a, b, k - 1) + (a[k - 1].v() - b[k - 1].v()) } }
+pub open spec fn psumsq_to(a: Seq<R>, b: Seq<R>, k: int) -> real decreases k {
+    if k <= 0 { 0real } else { psumsq_to(a, b, k - 1) + rmul(a[k - 1].v() - b[k - 1].v(), a[k - 1].v() - b[k - 1].v()) }
+}
+// what remains to be yielded by an iterator over `s` after k items (prophetic iterator model of vstd)
+pub open spec fn tail_of<T>(rem: Seq<&T>, s: Seq<T>, k: int) -> bool {
+    rem.len() == s.len() - k && forall|i: int| 0 <= i < rem.len() ==> *#[trigger] rem[i] == s[k + i]
+}
 // ---- unpaired comparison (C04): (mean_a - mean_b) -/+ c * sqrt(sa^2/na + sb^2/nb), c = t quantile at the documented effective dof
 pub open spec fn welch_x(s: real, q: real, n: nat) -> real { rdiv(var_of(s, q, n), n as real) }            // s^2 / n
 pub open spec fn welch_se(x: real, y: real) -> real { sqrt_spec(x + y) }
